@@ -122,6 +122,8 @@ func init() {
 		HSpec{Prop: "C19", Pkg: "lib/uncompng", Dir: "c19", Func: "VH_C19_CRCKernel", Aux: true, Params: map[string]int{"N": 1}, Label: "[n=1]", Reach: []string{"crc/done"}, Cfg: kern},
 		HSpec{Prop: "C19", Pkg: "lib/uncompng", Dir: "c19", Func: "VH_C19_CRCKernel", Aux: true, Params: map[string]int{"N": 2}, Label: "[n=2]", Reach: []string{"crc/done"}, Cfg: kern},
 		HSpec{Prop: "C19", Pkg: "lib/uncompng", Dir: "c19", Func: "VH_C19_AdlerKernel", Aux: true, Params: map[string]int{"N": 16}, ParamsT: map[string]int{"N": 64}, Reach: []string{"adler/done"}},
+		HSpec{Prop: "C19", Pkg: "lib/uncompng", Dir: "c19", Func: "VH_C19_AdlerBlock", Aux: true, Params: map[string]int{"N": 11200}, Reach: []string{"adlerblock/done"},
+			Cfg: func(c *gossa.Config, thorough bool) { c.Unwind = 12000; c.MaxSteps = 5_000_000 }},
 	)
 	register(p)
 }
